@@ -25,22 +25,12 @@ def mctx(F):
     for e in c.raw:
         if e.kind == "call" and e.callee.get("local") and e.path == e.body.path:
             c.rec = e.body
-    # events inside exempt helper
-    c.exempt_paths = set()
-    for e in c.raw:
-        for (b, s) in e.chain:
-            pass
-    for b in F.all_bodies():
-        if b.kind != "Closure" and b.self_adt == "Sodg" and b.vis != "pub" and G.merge_nontree_exempt(c.g, b) is True:
-            c.exempt_paths.add(b.path)
     _C[id(F)] = c
     return c
 
 
 def in_exempt(c, e):
-    if e.body.path in c.exempt_paths or owner_body(e.body).path in c.exempt_paths:
-        return True
-    return False
+    return G.nontree_exempt_event(c.g, e)
 
 
 def rooted_at(e, root):
@@ -143,7 +133,7 @@ def mg3456(F, R):
                 return to is None or label_of(ce[2][1]) == to
         return False
     # ---- MG3
-    binds = [e for e in raw if e.kind == "call" and e.name == "bind" and e.callee.get("local")]
+    binds = [e for e in raw if e.kind == "call" and e.name == "bind" and e.callee.get("local") and not in_exempt(c, e)]
     R.floor("MG3", "bind calls in the descent", len(binds), 1, rec.where())
     for e in binds:
         lbl = label_of(e.args[3])
